@@ -386,9 +386,43 @@ func runLoop(r *sup.CaseResult, rng *rand.Rand, cfg runCfg) {
 	}
 	loop := fsloop.NewLoop(data, nil)
 	done := make(chan struct{})
+	var errs []error
+	// in faulty runs other goroutines ask for the error list all the while (they share the
+	// lifecycle's mutex with whoever reports the error); the list they see only ever grows
+	var polls, shrunk int64
+	var pollWG sync.WaitGroup
+	started := make(chan struct{})
+	if cfg.Fault != "" {
+		for k := 0; k < 1+rng.Intn(3); k++ {
+			pollWG.Add(1)
+			go func() {
+				defer pollWG.Done()
+				<-started // the loop has no lifecycle before Run
+				last := 0
+				for n := 0; ; n++ {
+					select {
+					case <-done:
+						return
+					default:
+					}
+					l := len(loop.Errors())
+					if l < last {
+						atomic.AddInt64(&shrunk, 1)
+					}
+					last = l
+					atomic.AddInt64(&polls, 1)
+					if n%64 == 63 || runtime.GOMAXPROCS(0) == 1 {
+						runtime.Gosched()
+					}
+				}
+			}()
+		}
+	}
 	go func() {
 		loop.Run("")
+		close(started)
 		loop.Wait()
+		errs = loop.Errors() // what a caller that waited for the loop gets to see
 		rec.add("waited", "")
 		close(done)
 	}()
@@ -398,7 +432,11 @@ func runLoop(r *sup.CaseResult, rng *rand.Rand, cfg runCfg) {
 		r.Inconclusive = "loop did not finish within the 90 s watchdog"
 		return
 	}
-	errs := loop.Errors()
+	pollWG.Wait()
+	r.AddObs("error_list_polls_during_faulty_runs", atomic.LoadInt64(&polls))
+	if shrunk > 0 {
+		r.Violate("error-list-shrank", fmt.Sprintf("a goroutine polling Errors() saw the list get shorter %d times", shrunk), map[string]any{"cfg": cfg})
+	}
 	// give straggling callbacks (there must be none) a chance to show up
 	for i := 0; i < 3; i++ {
 		runtime.Gosched()
